@@ -1011,7 +1011,10 @@ package fsutil
 //@   effects *
 //@   at call receiver.run: wiring: isptr(arg0.conn, syncStream) && asptr(arg0.conn, syncStream).Stream == conn && arg0.dest == dest && arg0.files != nil && arg0.pipes != nil && len(arg0.files) == 0 && len(arg0.pipes) == 0 && arg0.merge == opt.Merge && arg0.differ == opt.Differ
 
-// exactly one data callback must be configured
+// exactly one data callback must be configured; the group of content writers is unbounded (no
+// GroupLimit effect is allowed here): HandleChange runs on the diff goroutine, and if starting
+// a writer could block, the STATs that must be consumed before the pending DATA can arrive
+// would never be read
 //@ func NewDiskWriter
 //@   property C01 C05
 //@   ensures exclusive: result1 == nil ==> result0 != nil && result0.dirModTimes != nil && (result0.opt.SyncDataCb == nil || result0.opt.AsyncDataCb == nil) && !(result0.opt.SyncDataCb == nil && result0.opt.AsyncDataCb == nil) && result0.dest == dest
